@@ -79,9 +79,12 @@ type Cond struct {
 	// columns of one key owner; Flip: u.s <op> t.s)
 	K string `json:"k"`
 	// K == "s"
-	Neg   bool       `json:"neg,omitempty"`   // <> instead of =
-	Bang  bool       `json:"bang,omitempty"`  // spelled !=
-	Flip  bool       `json:"flip,omitempty"`  // value <op> column
+	Neg  bool `json:"neg,omitempty"`  // <> instead of =
+	Bang bool `json:"bang,omitempty"` // spelled !=
+	Flip bool `json:"flip,omitempty"` // value <op> column
+	// NS: the null-safe spelling of the comparison. PostgreSQL: IS NOT DISTINCT FROM (Neg: IS DISTINCT FROM);
+	// MySQL: <=> (Neg: NOT (.. <=> ..)). Two NULLs are equal, a NULL and a value are not; never unknown
+	NS    bool       `json:"ns,omitempty"`
 	Form  string     `json:"form,omitempty"`  // lit | cast | ptext | pbin | pcast
 	Spell int        `json:"spell,omitempty"` // literal spelling
 	Val   pgprog.Val `json:"val,omitempty"`
@@ -106,6 +109,9 @@ type Query struct {
 	// Sub: the statement is wrapped as SELECT id, s FROM t WHERE id IN (SELECT id FROM t ... WHERE cond)
 	Sub   bool `json:"sub,omitempty"`
 	Where Cond `json:"where"`
+	// Derived: table t is read through a derived table, FROM (SELECT id, s, p, n FROM t ...) AS d; the outer
+	// statement names t's columns d.<column>
+	Derived *Derived `json:"derived,omitempty"`
 	// joins: JOIN u AS v; ON u.ref = t.id instead of t.id = u.ref; a further condition inside the ON clause
 	UAlias bool  `json:"u_alias,omitempty"`
 	Comma  bool  `json:"comma,omitempty"` // FROM t, u WHERE t.id = u.ref AND (...) instead of JOIN .. ON
@@ -115,6 +121,18 @@ type Query struct {
 	Ext       bool   `json:"ext,omitempty"`
 	ResultFmt int16  `json:"result_fmt,omitempty"`
 	Describe  string `json:"describe,omitempty"`
+}
+
+// Derived describes the derived table that stands for table t in the FROM clause.
+type Derived struct {
+	// Cols: how the inner SELECT names the columns: "bare" id, s, p, n FROM t | "qualified" t.id, .. FROM t |
+	// "inner-alias" q.id, .. FROM t AS q
+	Cols string `json:"cols"`
+	// Filter: a condition on a plain column (literal operand) inside the derived table; rows that fail it are not
+	// part of the derived table
+	Filter *Cond `json:"filter,omitempty"`
+	// Right (joins): the derived table is the right operand, FROM u JOIN (SELECT ...) AS d ON .. / FROM u, (SELECT ...) AS d
+	Right bool `json:"right,omitempty"`
 }
 
 // Ins tells how a run of rows is inserted in the session layer.
@@ -144,6 +162,7 @@ type Case struct {
 	Swap []int           `json:"swap,omitempty"` // session layer: two row positions whose hashes get swapped
 
 	resolved bool
+	session  bool // set by the session layers (some signatures are attributed there only)
 }
 
 func tables(c Case) []pgprog.TableSpec {
@@ -440,6 +459,7 @@ func genCase(t *rapid.T, o genOpts) Case {
 	// statement's tables, a sub-query over other tables / aliases is passed on unchanged (not claimed as supported)
 	c.Q.Sub = !c.Q.Join && !c.Q.Alias && rapid.IntRange(0, 4).Draw(t, "sub") == 4
 	c.UConf = rapid.Bool().Draw(t, "uconf")
+	derived := !c.Q.Alias && !c.Q.Sub && rapid.IntRange(0, 4).Draw(t, "derived") == 4
 	if c.Q.Join {
 		c.Q.UAlias = rapid.IntRange(0, 3).Draw(t, "ualias") == 3
 		c.Q.OnFlip = rapid.IntRange(0, 3).Draw(t, "onflip") == 3
@@ -563,6 +583,28 @@ func genCase(t *rapid.T, o genOpts) Case {
 			c.U = append(c.U, u)
 		}
 	}
+	if derived {
+		// table t is reached only through a derived table. Together with a joined table that is not configured no
+		// table named in the outer FROM list has a schema
+		c.Q.Qualify = false
+		d := &Derived{Cols: rapid.SampledFrom([]string{"bare", "bare", "qualified", "inner-alias"}).Draw(t, "derived.cols")}
+		if rapid.IntRange(0, 2).Draw(t, "derived.filter") == 0 {
+			k := Cond{K: "plain", Col: rapid.SampledFrom([]string{"id", "p", "n"}).Draw(t, "derived.filter.col"), Op: rapid.SampledFrom([]string{"=", "<>", "<>"}).Draw(t, "derived.filter.op")}
+			switch k.Col {
+			case "id":
+				k.Arg = strconv.Itoa(rapid.IntRange(1, nrows).Draw(t, "derived.filter.arg"))
+			case "n":
+				k.Arg = strconv.Itoa(rapid.IntRange(0, 3).Draw(t, "derived.filter.arg"))
+			default:
+				k.Arg = rapid.SampledFrom(plainWords).Draw(t, "derived.filter.arg")
+			}
+			d.Filter = &k
+		}
+		if c.Q.Join {
+			d.Right = rapid.IntRange(0, 2).Draw(t, "derived.right") == 0
+		}
+		c.Q.Derived = d
+	}
 	// ---- the condition
 	var likeRows []int
 	for i, r := range c.Rows {
@@ -625,6 +667,14 @@ func genCase(t *rapid.T, o genOpts) Case {
 			k.Bang = rapid.Bool().Draw(t, label+".bang")
 		}
 		k.Flip = rapid.IntRange(0, 3).Draw(t, label+".flip") == 3
+		// the null-safe spelling of the comparison
+		if rapid.IntRange(0, 4).Draw(t, label+".ns") == 0 {
+			k.NS, k.Bang = true, false
+			if o.mysql {
+				// MySQL has no negated null-safe operator (NOT (a <=> b) is the shape "not" around this comparison)
+				k.Neg = false
+			}
+		}
 		forms := []string{"lit", "lit", "lit", "ptext", "pbin"}
 		if !o.mysql && !isInt(lt) {
 			forms = append(forms, "cast", "pcast")
@@ -634,6 +684,10 @@ func genCase(t *rapid.T, o genOpts) Case {
 		}
 		k.Form = rapid.SampledFrom(forms).Draw(t, label+".form")
 		k.Spell = rapid.IntRange(0, 3).Draw(t, label+".spell")
+		if k.NS && tab == "" && rapid.IntRange(0, 5).Draw(t, label+".null") == 0 {
+			// <column> IS [NOT] DISTINCT FROM NULL / <column> <=> NULL: finds the rows that hold no value
+			k.Probe, k.Val, k.Ref, k.Form = "null", pgprog.Val{Null: true}, 0, "lit"
+		}
 		return k
 	}
 	// which table's column s the comparisons are on: with a same-named column in u the second comparison of a
@@ -799,6 +853,17 @@ func evalCond(c Case, k Cond, j joined) tri {
 			}
 			v = *c.U[j.u].S
 		}
+		if k.NS {
+			// null-safe: two NULLs are equal, a NULL and a value are not
+			eq := v.Null && k.Val.Null
+			if !v.Null && !k.Val.Null {
+				eq = bytes.Equal(v.B, k.Val.B)
+			}
+			if eq != k.Neg {
+				return yes
+			}
+			return no
+		}
 		if v.Null || k.Val.Null {
 			return unknown
 		}
@@ -928,6 +993,10 @@ func expect(c Case) (ids []int, dontCare map[int]bool, excluded int) {
 			dontCare[j.row+1] = true
 			continue
 		}
+		if d := c.Q.Derived; d != nil && d.Filter != nil && evalCond(c, *d.Filter, j) != yes {
+			excluded++ // the row is not part of the derived table
+			continue
+		}
 		if evalCond(c, c.Q.Where, j) == yes && (c.Q.On == nil || !c.Q.Join || evalCond(c, *c.Q.On, j) == yes) {
 			ids = append(ids, j.row+1)
 		} else {
@@ -978,6 +1047,18 @@ func classesOf(c Case, db string) []string {
 	}
 	if c.Q.Sub {
 		cl = append(cl, "condition-in-sub-query")
+	}
+	if d := c.Q.Derived; d != nil {
+		cl = append(cl, "from:derived-table", "derived:columns-"+d.Cols)
+		if d.Filter != nil {
+			cl = append(cl, "derived:filter-inside")
+		}
+		if c.Q.Join && d.Right {
+			cl = append(cl, "derived:right-operand-of-join")
+		}
+		if !c.Q.Join || !c.UConf {
+			cl = append(cl, "derived:no-configured-table-in-outer-from")
+		}
 	}
 	if c.Q.Join {
 		if c.Q.UAlias {
@@ -1065,12 +1146,31 @@ func classesOf(c Case, db string) []string {
 				cl = append(cl, "order:column-left")
 			}
 			switch {
+			case k.NS && k.Neg:
+				cl = append(cl, "op:null-safe", "op:null-safe-not-equal")
+			case k.NS:
+				cl = append(cl, "op:null-safe", "op:null-safe-equal")
 			case k.Neg && k.Bang:
 				cl = append(cl, "op:!=")
 			case k.Neg:
 				cl = append(cl, "op:<>")
 			default:
 				cl = append(cl, "op:=")
+			}
+			if k.NS {
+				cl = append(cl, "op:null-safe:form:"+k.Form)
+				if k.Flip {
+					cl = append(cl, "op:null-safe:value-left")
+				}
+			}
+			if k.Val.Null {
+				for _, r := range c.Rows {
+					if r.S.Null {
+						cl = append(cl, "searched:null-present")
+						break
+					}
+				}
+				return
 			}
 			n := 0
 			for _, v := range columnValues(c, k.Tab) {
@@ -1287,13 +1387,33 @@ func sameIDs(a, b []int) bool {
 	return true
 }
 
+// Feature "derived-table-as-right-join-operand" (open known finding, whole sessions of both databases): FROM u JOIN
+// (SELECT ...) AS d - a derived table as the RIGHT operand of a join. The transparent-encryption observer that runs
+// before HashQuery fails on such a statement (QueryDataEncryptor.onSelect -> MapColumnsToAliases -> parseJoinTablesInfo
+// wants a table name there), the observer manager gives up on the first error and the proxy forwards the statement
+// as the client wrote it: the search term reaches the database in clear. HashQuery alone (component layers) rewrites
+// the statement correctly: the feature is attributed in the session layers only.
+
+// openStatementClass names the open known finding the search statement of a session case belongs to as a whole
+// ("" = none): the statements of such a class reach the database unprocessed, and what the proxy then does with the
+// answer (pass it on, fail, close the session) is the same defect. The session layers count the case under that
+// signature and do not judge it further.
+func openStatementClass(c Case, db string) string {
+	if d := c.Q.Derived; d != nil && d.Right && c.Q.Join && c.session {
+		if sig := "derived-table-as-right-join-operand:" + db; R.IsKnown(sig) {
+			return sig
+		}
+	}
+	return ""
+}
+
 // condSig builds the signature of a search violation: kind + the feature of the case's searchable
 // comparisons it is attributed to + the database. One feature per signature keeps known-finding classes
 // narrow; when several features are present, a feature that is an open known finding wins (so that the
 // class is excluded whatever else the case holds), otherwise the first one in the list. Only call it when a
 // violation is being recorded (R.IsKnown counts exclusions).
 func condSig(kind string, c Case, db string) string {
-	var flip, pcast, emptyVal, hexLit, zeroX, hexNum, like, inOn bool
+	var flip, pcast, emptyVal, hexLit, zeroX, hexNum, like, inOn, ns, nsLeft bool
 	for _, r := range c.Rows {
 		like = like || r.Like != nil
 	}
@@ -1305,6 +1425,8 @@ func condSig(kind string, c Case, db string) string {
 			return
 		}
 		flip = flip || k.Flip
+		ns = ns || k.NS
+		nsLeft = nsLeft || (k.NS && k.Flip)
 		pcast = pcast || k.Form == "pcast"
 		emptyVal = emptyVal || (len(k.Val.B) == 0 && !k.Val.Null)
 		if db == "mysql" && k.Form == "lit" {
@@ -1317,6 +1439,9 @@ func condSig(kind string, c Case, db string) string {
 	var feats []string
 	if c.Col.ClientID != "" && c.Col.ClientID != "alice" {
 		feats = append(feats, "column-client-differs-from-connection")
+	}
+	if nsLeft {
+		feats = append(feats, "null-safe-comparison-value-on-the-left")
 	}
 	if flip {
 		feats = append(feats, "searchable-column-as-right-operand")
@@ -1338,6 +1463,15 @@ func condSig(kind string, c Case, db string) string {
 	}
 	if c.Q.Sub && db != "mysql" {
 		feats = append(feats, "search-condition-in-sub-query")
+	}
+	if d := c.Q.Derived; d != nil && d.Right && c.Q.Join && c.session {
+		feats = append(feats, "derived-table-as-right-join-operand")
+	}
+	if c.Q.Derived != nil {
+		feats = append(feats, "search-condition-over-derived-table")
+	}
+	if ns {
+		feats = append(feats, "null-safe-comparison")
 	}
 	// literal spellings last: the smallest case of any class is written with them (spelling 0 of a bytes value is
 	// X'..'), so they are weak evidence next to a feature that had to be drawn
